@@ -26,6 +26,7 @@ type pipeSocket struct {
 	out       *agentOut
 	ag        *agent.Agent
 	h         *echoHandler
+	raw       *rawPeer
 	agentDone chan struct{}
 }
 
@@ -37,6 +38,15 @@ func (s *pipeSocket) Open() error {
 	s.fromAgent = newFragPipe(s.svc.frag())
 	s.out = &agentOut{p: s.fromAgent}
 	s.out.cond = sync.NewCond(&s.out.mu)
+	if s.svc.reqFault != nil {
+		// a peer that answers one request wrongly cannot be built on the agent library
+		s.raw = newRawPeer(s.toAgent, s.out, s.svc.reqFault, s.svc.pad)
+		s.agentDone = s.raw.done
+		s.svc.mu.Lock()
+		s.svc.socks = append(s.svc.socks, s)
+		s.svc.mu.Unlock()
+		return nil
+	}
 	s.ag = agent.New(s.toAgent, s.out)
 	s.h = &echoHandler{a: s.ag, pad: s.svc.pad, wants: s.wants, provides: s.provides, fault: s.svc.fault}
 	s.h.raw = func(b []byte) { s.out.afterFrames(s.h.handed(), func() { s.fromAgent.Write(b) }) }
@@ -63,11 +73,12 @@ func (s *pipeSocket) In() io.WriteCloser { return s.toAgent }
 func (s *pipeSocket) Out() io.Reader     { return s.fromAgent }
 
 type udfService struct {
-	mu      sync.Mutex
-	frag    func() func() int // a fresh fragmentation schedule per pipe
-	pad     int
-	fault   *faultSpec
-	timeout time.Duration
+	mu       sync.Mutex
+	frag     func() func() int // a fresh fragmentation schedule per pipe
+	pad      int
+	fault    *faultSpec
+	reqFault *reqFault
+	timeout  time.Duration
 	// openGate, when set, blocks Socket.Open until it is closed
 	openGate chan struct{}
 	socks    []*pipeSocket
